@@ -17,6 +17,7 @@ import (
 	"golang.org/x/crypto/ssh"
 	sshagent "golang.org/x/crypto/ssh/agent"
 
+	"github.com/theparanoids/ysshra/agent/shimagent"
 	"github.com/theparanoids/ysshra/agent/yubiagent"
 	"github.com/theparanoids/ysshra/internal/verifharness/hx"
 )
@@ -35,6 +36,10 @@ func init() {
 	// the child mode must act before the normal flow: hook through an init-time wrapper of flag parsing
 	for i, a := range os.Args {
 		if a == "-child" && i+1 < len(os.Args) {
+			if strings.HasPrefix(os.Args[i+1], "lin,") {
+				fmt.Println(linearize(os.Args[i+1]))
+				os.Exit(0)
+			}
 			fmt.Println(stress(os.Args[i+1]))
 			os.Exit(0)
 		}
@@ -230,6 +235,9 @@ func stress(spec string) string {
 	if strings.Join(got, ",") != strings.Join(want, ",") {
 		report("state:" + strings.Join(got, ",") + "!=" + strings.Join(want, ","))
 	}
+	if r := globalPanics.Load(); r != nil {
+		report("crash:" + hx.HexS(r.(string)))
+	}
 	if len(problems) > 0 {
 		sort.Strings(problems)
 		return problems[0]
@@ -252,5 +260,170 @@ func genRace(g *hx.Gen, out *hx.Out) {
 		ng := []int{2, 3, 4, 8, 16}[g.Intn(5)]
 		sets = append(sets, []string{strconv.Itoa(ng), strconv.Itoa(20 + g.Intn(30)), "0", strconv.Itoa(g.Intn(1 << 30))})
 	}
+	// two-operation rounds: every pair whose orders differ observably, both modes
+	pairs := [][]string{{"addhard", "removeall", "0"}, {"addhard", "removekey", "0"}, {"addhard", "uremovekey", "0"}, {"addhard", "lock", "0"},
+		{"removecert", "list", "1"}, {"removeall", "sign", "1"}, {"lock", "list", "1"}, {"lock", "removeall", "1"}, {"addkey", "removeall", "0"},
+		{"addhard", "addhard", "0"}, {"lock", "lock", "0"}, {"removecert", "removeall", "1"}, {"unlock", "addhard", "0"}}
+	rounds := 60
+	if *hx.Count >= 1000 {
+		rounds = 600
+	}
+	for _, p := range pairs {
+		for _, noup := range []string{"0", "1"} {
+			sets = append(sets, []string{"lin", p[0], p[1], strconv.Itoa(rounds), noup, p[2]})
+		}
+	}
 	out.Batch("rc", "race", sets, 3, func(a []string) []string { return safe(runRace, a) })
+}
+
+// ---------------------------------------------------------------- two-operation linearizability rounds
+
+// linWorld: a fresh shim over a fresh keyring holding one key K; a valid certificate C over K
+type linWorld struct {
+	ring sshagent.Agent
+	y    shimagent.ShimAgent
+	stop func()
+	priv ed25519.PrivateKey
+	pub  ssh.PublicKey
+	cert *ssh.Certificate
+}
+
+var linCA ssh.Signer
+
+func newLinWorld(noup bool, priv ed25519.PrivateKey, cert *ssh.Certificate, preHard bool) *linWorld {
+	ring := sshagent.NewKeyring()
+	ring.Add(sshagent.AddedKey{PrivateKey: &priv, Comment: "k"})
+	sock, stop := underlying(ring)
+	y, err := shimagent.New(shimagent.Option{Address: sock, NoUpstream: noup})
+	if err != nil {
+		panic(err)
+	}
+	w := &linWorld{ring: ring, y: y, stop: func() { y.Close(); stop() }, priv: priv, cert: cert}
+	s, _ := ssh.NewSignerFromKey(priv)
+	w.pub = s.PublicKey()
+	if preHard {
+		if err := y.AddHardCert(cert, "yk"); err != nil {
+			panic(err)
+		}
+	}
+	return w
+}
+
+// observe: the client-visible and underlying state, canonical
+func (w *linWorld) observe() string {
+	show := func(keys []*sshagent.Key, err error) string {
+		if err != nil {
+			return "err"
+		}
+		var s []string
+		for _, k := range keys {
+			if bytes.Equal(k.Blob, w.cert.Marshal()) {
+				s = append(s, "C")
+			} else if bytes.Equal(k.Blob, w.pub.Marshal()) {
+				s = append(s, "K")
+			} else {
+				s = append(s, "?")
+			}
+		}
+		sort.Strings(s)
+		return strings.Join(s, "")
+	}
+	shimList := show(w.y.List())
+	// is the shim locked? (a second unlock attempt with the passphrase tells, and restores)
+	under := show(w.ring.List())
+	return "shim=" + shimList + " under=" + under
+}
+
+type linOp struct {
+	name string
+	run  func(w *linWorld) string
+}
+
+func errS(err error) string {
+	if err != nil {
+		return "e"
+	}
+	return "n"
+}
+
+var linOps = map[string]linOp{
+	"addhard":   {"addhard", func(w *linWorld) string { return errS(w.y.AddHardCert(w.cert, "yk")) }},
+	"removeall": {"removeall", func(w *linWorld) string { return errS(w.y.RemoveAll()) }},
+	"removekey": {"removekey", func(w *linWorld) string { return errS(w.y.Remove(w.pub)) }},
+	"removecert": {"removecert", func(w *linWorld) string { return errS(w.y.Remove(w.cert)) }},
+	"uremovekey": {"uremovekey", func(w *linWorld) string { return errS(w.ring.Remove(w.pub)) }},
+	"addkey": {"addkey", func(w *linWorld) string {
+		return errS(w.y.Add(sshagent.AddedKey{PrivateKey: &w.priv, Comment: "again"}))
+	}},
+	"lock":   {"lock", func(w *linWorld) string { return errS(w.y.Lock([]byte("pw"))) }},
+	"unlock": {"unlock", func(w *linWorld) string { return errS(w.y.Unlock([]byte("pw"))) }},
+	"list": {"list", func(w *linWorld) string {
+		keys, err := w.y.List()
+		if err != nil {
+			return "e"
+		}
+		return fmt.Sprintf("n%d", len(keys))
+	}},
+	"sign": {"sign", func(w *linWorld) string {
+		_, err := w.y.Sign(w.cert, []byte("data"))
+		return errS(err)
+	}},
+}
+
+// lin spec: "lin,<opA>,<opB>,<rounds>,<noup 0/1>,<prehard 0/1>"
+// Every round runs A and B concurrently on a fresh world and requires (result of A, result of B,
+// final observation after unlocking) to be what one of the two sequential orders gives on the
+// same fresh world.  Output: ok | nonlinearizable:<detail>
+func linearize(spec string) string {
+	f := strings.Split(spec, ",")
+	a, b := linOps[f[1]], linOps[f[2]]
+	rounds, _ := strconv.Atoi(f[3])
+	noup, pre := f[4] == "1", f[5] == "1"
+	_, caPriv, _ := ed25519.GenerateKey(rand.Reader)
+	caS, _ := ssh.NewSignerFromKey(caPriv)
+	_, priv, _ := ed25519.GenerateKey(rand.Reader)
+	ks, _ := ssh.NewSignerFromKey(priv)
+	now := uint64(time.Now().Unix())
+	cert := &ssh.Certificate{Key: ks.PublicKey(), Serial: 7, CertType: ssh.UserCert, KeyId: "x", ValidAfter: now - 2000, ValidBefore: now + 100000}
+	cert.SignCert(rand.Reader, caS)
+	final := func(w *linWorld) string {
+		w.y.Unlock([]byte("pw")) // make the state visible whatever the lock flag is
+		return w.observe()
+	}
+	seq := func(aFirst bool) string {
+		w := newLinWorld(noup, priv, cert, pre)
+		defer w.stop()
+		var ra, rb string
+		if aFirst {
+			ra = a.run(w)
+			rb = b.run(w)
+		} else {
+			rb = b.run(w)
+			ra = a.run(w)
+		}
+		return ra + "," + rb + " " + final(w)
+	}
+	allowed := map[string]bool{seq(true): true, seq(false): true}
+	for i := 0; i < rounds; i++ {
+		w := newLinWorld(noup, priv, cert, pre)
+		var ra, rb string
+		var wg sync.WaitGroup
+		start := make(chan struct{})
+		wg.Add(2)
+		go func() { defer wg.Done(); <-start; ra = a.run(w) }()
+		go func() { defer wg.Done(); <-start; rb = b.run(w) }()
+		close(start)
+		wg.Wait()
+		got := ra + "," + rb + " " + final(w)
+		w.stop()
+		if !allowed[got] {
+			var al []string
+			for k := range allowed {
+				al = append(al, k)
+			}
+			sort.Strings(al)
+			return "nonlinearizable:" + hx.HexS(fmt.Sprintf("%s||%s round %d: got {%s}, sequential orders give {%s}", a.name, b.name, i, got, strings.Join(al, "} or {")))
+		}
+	}
+	return "ok"
 }
